@@ -65,6 +65,7 @@ type Gate struct {
 	Detail     string
 	Site       string
 	Releasable bool
+	Abandoned  bool // Late plugins: the engine's context was cancelled while the call is still parked
 	N          int
 	ch         chan struct{}
 	seq        int
@@ -380,6 +381,36 @@ func (p *Plug) Execute(ctx context.Context, req any) (any, *plugins.Error) {
 		site = frames[0]
 	}
 	g := &Gate{Thread: thread, Kind: "INV", Path: path, Detail: "#" + strconv.Itoa(n) + ":" + out, Site: site, Releasable: out != Overrun, N: n}
+	if out == Late {
+		// The plugin does not honour its context: it stays parked (and releasable) when the engine gives up on it.
+		stop := context.AfterFunc(ctx, func() {
+			w.mu.Lock()
+			still := false
+			for _, o := range w.parked {
+				if o == g {
+					still = true
+				}
+			}
+			if still {
+				g.Abandoned = true
+				w.InFlight[path]--
+				w.log(Event{Kind: "CTXDONE", Thread: thread, Path: path, N: n, Out: out})
+			}
+			w.mu.Unlock()
+			w.signal()
+		})
+		w.park(g, nil)
+		stop()
+		w.mu.Lock()
+		if !g.Abandoned {
+			w.InFlight[path]--
+			w.log(Event{Kind: "RET", Thread: thread, Path: path, N: n, Out: out})
+		} else {
+			w.log(Event{Kind: "LATERET", Thread: thread, Path: path, N: n, Out: out})
+		}
+		w.mu.Unlock()
+		return Resp{Path: path, N: n}, nil
+	}
 	released := w.park(g, ctx)
 
 	w.mu.Lock()
